@@ -26,6 +26,8 @@ type RdbReplay struct {
 	KeyExists       string
 	KeyExistsLog    bool
 	ReplaceHashTag  bool
+
+	ignoredKey []byte // key skipped by the ignore policy, its remaining chunks are skipped as well
 }
 
 func (rr *RdbReplay) Replay(e *rdb.BinEntry) (err error) {
@@ -60,7 +62,11 @@ func (rr *RdbReplay) Replay(e *rdb.BinEntry) (err error) {
 		if ot == rdb.RdbObjectModule {
 			return fmt.Errorf("rdb module object requires RESTORE replay for key %s", e.Key)
 		}
+		if !e.FirstBin() && rr.ignoredKey != nil && bytes.Equal(rr.ignoredKey, e.Key) {
+			return nil // a later chunk of a key that exists on the output and is ignored
+		}
 		if e.FirstBin() {
+			rr.ignoredKey = nil
 			exist, err := common.Bool(rr.Client.Do("exists", e.Key))
 			if err != nil {
 				return err
@@ -79,6 +85,9 @@ func (rr *RdbReplay) Replay(e *rdb.BinEntry) (err error) {
 					if rr.KeyExistsLog {
 						log.Warnf("output key exist, ignore it : %s", e.Key)
 					}
+					// keep the existing key untouched : nothing of the snapshot value may be merged into it
+					rr.ignoredKey = append([]byte{}, e.Key...)
+					return nil
 				case "error":
 					return fmt.Errorf("output key exist : %s", e.Key)
 				}
